@@ -42,6 +42,8 @@ def pure(n):
         return all(pure(c) for c in n["c"])
     if k == "un" and n.get("op") == "-":
         return pure(n["c"][0])
+    if k == "call" and n.get("ck") == "mem" and n.get("cconst") and len(n.get("c", ())) == 1:
+        return pure(n["c"][0])          # argument-less const member call on a variable / member (x.size(), state.fx())
     return False
 
 
